@@ -187,6 +187,11 @@ func runCase(line []byte, keepInput bool) (fmtResult, *fmtEvent) {
 		gm = append(gm, c.M)
 		gs = append(gs, c.Sp)
 	}
+	for _, w := range b.Toks {
+		if !strings.HasPrefix(w, "@") && len(w) > 2 && strings.Contains(w, "\n") {
+			cls["multiline_word"] = true // a literal that spans lines
+		}
+	}
 	cls["gap"] = strings.Join(gl, "+")
 	cls["marker"] = strings.Join(gm, "+")
 	cls["sp"] = strings.Join(gs, "+")
